@@ -88,8 +88,8 @@ def extract_boundary_of_surface(mesh : SurfaceMesh) -> PolyLine :
             for v2 in cycle_v:
                 visited[v2] = True
                 map_v2v[v2] = ind_vertex
+                component[ind_vertex] = ind_component
                 ind_vertex += 1
-                component[v2] = ind_component
                 bound.vertices.append(mesh.vertices[v2])
             ind_component += 1
 
